@@ -1,3 +1,745 @@
-"""placeholder – replaced by the real translator"""
-def regenerate(repo, outdir):
-	return {'functions': [], 'untranslatable': []}
+"""Translator T: the Cython subset used by src/gambit/_cython/{kmers,metric}.pyx  ->  Lean 4 definitions (GambitV.Gen.*).
+
+The translation is a uniform state-passing one: every C-level function `f` becomes
+  structure f.St           -- one field per parameter and per local variable (C types mapped below)
+  def f.run  : <params> -> Except f.Ret f.St      -- the body; `return e` = `throw`
+  def f      : <params> -> f.Ret                  -- result (+ out-parameters / written buffers)
+Statements map one-to-one:  x = e  ->  record update;  if/elif/else -> if-then-else;  for i in range(n) -> forRangeFrom;
+while c -> whileFuelE (fuel = sum of the lengths of all array parameters + 1, shown sufficient by the Tie theorems);
+prange -> a per-iteration body plus the statically collected read / write sets.
+C types: uint64_t -> UInt64 (wrap-around arithmetic), CHAR/char -> UInt8, int / intptr_t / BOUNDS_T -> Int (unbounded; index ranges
+far below 2^31 are an assumption listed in DESIGN §3), bint -> Bool, SCORE_T -> binary32 bit pattern (GambitV.F32), memoryviews -> List.
+Anything outside the subset is reported in `untranslatable` (the check then treats the tie as broken); nothing is skipped silently.
+"""
+from __future__ import annotations
+
+import hashlib
+import re
+from pathlib import Path
+
+# ------------------------------------------------------------------------------------------------
+# lexer
+# ------------------------------------------------------------------------------------------------
+TOK = re.compile(r"""\s*(?:
+   (?P<num>0[bB][01]+|0[xX][0-9a-fA-F]+|\d+)
+ | (?P<name>[A-Za-z_][A-Za-z_0-9]*)
+ | (?P<str>'(?:[^'\\]|\\.)*'|"(?:[^"\\]|\\.)*")
+ | (?P<op><<=|>>=|<<|>>|<=|>=|==|!=|\+=|-=|\*=|&=|\|=|//|[-+*/%&|^~<>()\[\]:,.=])
+)""", re.X)
+
+
+class Untranslatable(Exception):
+	pass
+
+
+def lex(s):
+	out, pos = [], 0
+	s = s.strip()
+	while pos < len(s):
+		m = TOK.match(s, pos)
+		if not m or m.end() == pos:
+			raise Untranslatable(f'cannot tokenise {s[pos:pos+20]!r}')
+		pos = m.end()
+		k = m.lastgroup
+		out.append((k, m.group(k)))
+	return out
+
+
+# ------------------------------------------------------------------------------------------------
+# expression parser -> small AST (tuples)
+# ------------------------------------------------------------------------------------------------
+BINPREC = [('or',), ('and',), ('<', '<=', '>', '>=', '==', '!='), ('|',), ('^',), ('&',), ('<<', '>>'), ('+', '-'), ('*', '/', '%', '//')]
+
+
+class P:
+	def __init__(self, toks):
+		self.t, self.i = toks, 0
+
+	def peek(self):
+		return self.t[self.i] if self.i < len(self.t) else (None, None)
+
+	def eat(self, v=None):
+		k, x = self.peek()
+		if v is not None and x != v:
+			raise Untranslatable(f'expected {v!r}, got {x!r}')
+		self.i += 1
+		return k, x
+
+	def expr(self, lvl=0):
+		if lvl == len(BINPREC):
+			return self.unary()
+		left = self.expr(lvl + 1)
+		while True:
+			k, x = self.peek()
+			if x in BINPREC[lvl] and not (x == '<' and False):
+				self.eat()
+				right = self.expr(lvl + 1)
+				left = ('bin', x, left, right)
+			else:
+				return left
+
+	def unary(self):
+		k, x = self.peek()
+		if x == '<':   # cast  <T>(e)  /  <T>e
+			self.eat()
+			_, ty = self.eat()
+			self.eat('>')
+			return ('cast', ty, self.unary())
+		if x == '&':
+			self.eat(); return ('addr', self.unary())
+		if x == '-':
+			self.eat(); return ('neg', self.unary())
+		if x == 'not':
+			self.eat(); return ('not', self.unary())
+		return self.postfix()
+
+	def postfix(self):
+		k, x = self.eat()
+		if k == 'num':
+			e = ('num', int(x, 0))
+		elif k == 'str':
+			body = x[1:-1]
+			e = ('chr', ord(body)) if len(body) == 1 else ('str', body)
+		elif k == 'name':
+			e = ('bool', x == 'True') if x in ('True', 'False') else ('name', x)
+		elif x == '(':
+			e = self.expr(); self.eat(')')
+		else:
+			raise Untranslatable(f'unexpected token {x!r}')
+		while True:
+			k, x = self.peek()
+			if x == '.':
+				self.eat(); _, a = self.eat(); e = ('attr', e, a)
+			elif x == '[':
+				self.eat()
+				lo = None if self.peek()[1] == ':' else self.expr()
+				if self.peek()[1] == ':':
+					self.eat()
+					hi = None if self.peek()[1] == ']' else self.expr()
+					self.eat(']'); e = ('slice', e, lo, hi)
+				else:
+					self.eat(']'); e = ('index', e, lo)
+			elif x == '(':
+				self.eat(); args, kw = [], {}
+				while self.peek()[1] != ')':
+					if self.peek()[0] == 'name' and self.i + 1 < len(self.t) and self.t[self.i + 1][1] == '=':
+						_, n = self.eat(); self.eat('='); kw[n] = self.expr()
+					else:
+						args.append(self.expr())
+					if self.peek()[1] == ',':
+						self.eat()
+				self.eat(')'); e = ('call', e, args, kw)
+			else:
+				return e
+
+
+def parse_expr(s):
+	p = P(lex(s))
+	e = p.expr()
+	if p.i != len(p.t):
+		raise Untranslatable(f'trailing tokens in {s!r}')
+	return e
+
+
+# ------------------------------------------------------------------------------------------------
+# statements (indentation based)
+# ------------------------------------------------------------------------------------------------
+def strip_comment(line):
+	out, q = [], None
+	for i, c in enumerate(line):
+		if q:
+			out.append(c)
+			if c == q and line[i - 1] != '\\':
+				q = None
+		elif c in '\'"':
+			q = c; out.append(c)
+		elif c == '#':
+			break
+		else:
+			out.append(c)
+	return ''.join(out).rstrip()
+
+
+def logical_lines(text):
+	"""(indent, text) without comments, blank lines and docstrings"""
+	lines = []
+	in_doc = False
+	for raw in text.split('\n'):
+		st = raw.strip()
+		if in_doc:
+			if '"""' in st:
+				in_doc = False
+			continue
+		if st.startswith('"""') or st.startswith('r"""'):
+			if st.count('"""') == 1:
+				in_doc = True
+			continue
+		l = strip_comment(raw)
+		if not l.strip():
+			continue
+		ind = len(l) - len(l.lstrip('\t'))
+		lines.append((ind, l.strip()))
+	return lines
+
+
+def parse_block(lines, i, ind):
+	"""statements at indentation `ind` starting at index i -> (stmts, next index)"""
+	out = []
+	while i < len(lines) and lines[i][0] >= ind:
+		if lines[i][0] > ind:
+			raise Untranslatable(f'unexpected indent: {lines[i][1]}')
+		t = lines[i][1]
+		if t == 'cdef:':
+			body, i = collect(lines, i + 1, ind + 1)
+			for d in body:
+				out.append(('decl', d))
+			continue
+		if t.startswith('cdef ') and not t.endswith(':'):
+			out.append(('decl', t[5:])); i += 1; continue
+		m = re.match(r'(if|elif|while)\s+(.*):$', t)
+		if m:
+			body, j = parse_block(lines, i + 1, ind + 1)
+			out.append((m.group(1), parse_expr(m.group(2)), body)); i = j; continue
+		if t == 'else:':
+			body, j = parse_block(lines, i + 1, ind + 1)
+			out.append(('else', body)); i = j; continue
+		m = re.match(r'for\s+(\w+)\s+in\s+(range|prange)\((.*)\):$', t)
+		if m:
+			body, j = parse_block(lines, i + 1, ind + 1)
+			call = parse_expr(f'{m.group(2)}({m.group(3)})')
+			out.append(('for', m.group(1), m.group(2), call[2], call[3], body)); i = j; continue
+		if t.startswith('return'):
+			rest = t[6:].strip()
+			out.append(('return', parse_expr(rest) if rest else None)); i += 1; continue
+		if t.startswith('raise '):
+			out.append(('raise', t[6:])); i += 1; continue
+		m = re.match(r'(.+?)\s*(<<=|>>=|\+=|-=|\*=|&=|\|=|=)\s*(.+)$', t) if not re.match(r'.*[<>=!]=.*', t.split('=')[0] + '=') or True else None
+		# assignment: find a top-level '=' that is not part of a comparison
+		am = _find_assign(t)
+		if am:
+			lhs, op, rhs = am
+			out.append(('assign', parse_expr(lhs), op, parse_expr(rhs))); i += 1; continue
+		out.append(('expr', parse_expr(t))); i += 1
+	# fold if/elif/else chains
+	folded = []
+	for s in out:
+		if s[0] in ('elif', 'else'):
+			if not folded or folded[-1][0] != 'ifchain':
+				raise Untranslatable('elif/else without if')
+			folded[-1][1].append(s)
+		elif s[0] == 'if':
+			folded.append(('ifchain', [s]))
+		else:
+			folded.append(s)
+	return folded, i
+
+
+def _find_assign(t):
+	depth = 0
+	for m in re.finditer(r'<<=|>>=|\+=|-=|\*=|&=|\|=|==|!=|<=|>=|=|[\[\](){}]', t):
+		x = m.group(0)
+		if x in '([{':
+			depth += 1
+		elif x in ')]}':
+			depth -= 1
+		elif depth == 0 and x in ('=', '<<=', '>>=', '+=', '-=', '*=', '&=', '|='):
+			return t[:m.start()].strip(), x, t[m.end():].strip()
+	return None
+
+
+def collect(lines, i, ind):
+	out = []
+	while i < len(lines) and lines[i][0] >= ind:
+		out.append(lines[i][1]); i += 1
+	return out, i
+
+
+def parse_functions(text):
+	lines = logical_lines(text)
+	funcs = []
+	i = 0
+	while i < len(lines):
+		ind, t = lines[i]
+		m = re.match(r'(def|cdef)\s+(?:([\w]+)\s+)?(\w+)\((.*)\)\s*(nogil)?\s*:$', t)
+		if ind == 0 and m:
+			body, j = parse_block(lines, i + 1, 1)
+			params = []
+			for p in [x.strip() for x in m.group(4).split(',') if x.strip()]:
+				pm = re.match(r'(?:(const)\s+)?([\w]+(?:\[:\])?)\s*(\*)?\s*(\w+)$', p)
+				if pm:
+					params.append((pm.group(4), pm.group(2) + ('*' if pm.group(3) else '')))
+				else:
+					params.append((p, 'object'))
+			funcs.append({'kind': m.group(1), 'ret': m.group(2), 'name': m.group(3), 'params': params, 'body': body})
+			i = j
+		else:
+			i += 1
+	return funcs
+
+
+# ------------------------------------------------------------------------------------------------
+# types and emission
+# ------------------------------------------------------------------------------------------------
+CT = {'uint64_t': 'u64', 'CHAR': 'u8', 'char': 'u8', 'int': 'int', 'intptr_t': 'int', 'BOUNDS_T': 'int', 'bint': 'bool', 'SCORE_T': 'f32',
+      'COORDS_T': 'nat', 'COORDS_T_2': 'nat', 'object': 'obj'}
+LEANT = {'u64': 'UInt64', 'u8': 'UInt8', 'int': 'Int', 'bool': 'Bool', 'f32': 'UInt32', 'nat': 'Nat', 'obj': 'Int',
+         'list_u8': 'List UInt8', 'list_nat': 'List Nat', 'list_int': 'List Int', 'list_f32': 'List UInt32'}
+DEFAULT = {'u64': '0', 'u8': '0', 'int': '0', 'bool': 'false', 'f32': '0', 'nat': '0', 'obj': '0', 'list_u8': '[]', 'list_nat': '[]', 'list_int': '[]', 'list_f32': '[]'}
+
+
+def ctype(t, typedefs):
+	ptr = t.endswith('*')
+	t = t.rstrip('*')
+	mv = t.endswith('[:]')
+	t = t[:-3] if mv else t
+	base = CT.get(typedefs.get(t, t), CT.get(t))
+	if t in typedefs and typedefs[t] == 'float':
+		base = 'f32'
+	if t in typedefs and typedefs[t] not in ('float', 'intptr_t') and t == 'SCORE_T':
+		raise Untranslatable(f'SCORE_T is {typedefs[t]}, expected float')
+	if base is None:
+		raise Untranslatable(f'unknown type {t}')
+	if mv:
+		return 'list_' + base
+	return base
+
+
+class Emitter:
+	def __init__(self, fn, typedefs, known_funcs):
+		self.fn = fn
+		self.typedefs = typedefs
+		self.known = known_funcs
+		self.vars = {}     # name -> type
+		self.outparams = []
+		for n, t in fn['params']:
+			ty = ctype(t, typedefs)
+			self.vars[n] = ty
+			if t.endswith('*'):
+				self.outparams.append(n)
+		self.written_lists = []
+		self.whiles = 0
+		self._collect_decls(fn['body'])
+
+	def _collect_decls(self, body):
+		for s in body:
+			if s[0] == 'decl':
+				m = re.match(r'([\w]+)\s+(.*)$', s[1])
+				ty = ctype(m.group(1), self.typedefs)
+				for part in _split_commas(m.group(2)):
+					name = part.split('=')[0].strip()
+					self.vars[name] = ty
+			elif s[0] == 'ifchain':
+				for br in s[1]:
+					self._collect_decls(br[-1])
+			elif s[0] in ('for', 'while'):
+				self._collect_decls(s[-1])
+				if s[0] == 'for':
+					self.vars.setdefault(s[1], 'int')
+
+	# ---- expressions -> (lean, type) -------------------------------------------------------------
+	def lit(self, n, want):
+		if want == 'u64':
+			return f'({n} : UInt64)'
+		if want == 'u8':
+			return f'({n} : UInt8)'
+		if want == 'f32':
+			return f'(F32.ofInt ({n} : Int))'
+		if want == 'nat':
+			return f'({n} : Nat)'
+		return f'({n} : Int)'
+
+	def ex(self, e, want=None):
+		k = e[0]
+		if k == 'num':
+			return self.lit(e[1], want or 'int'), (want if want in ('u64', 'u8', 'nat', 'f32') else 'int')
+		if k == 'chr':
+			return self.lit(e[1], want if want in ('u8', 'u64', 'int') else 'u8'), (want if want in ('u8', 'u64', 'int') else 'u8')
+		if k == 'bool':
+			return ('true' if e[1] else 'false'), 'bool'
+		if k == 'name':
+			if e[1] not in self.vars:
+				raise Untranslatable(f'unknown variable {e[1]}')
+			return f's.{e[1]}', self.vars[e[1]]
+		if k == 'attr':
+			raise Untranslatable(f'attribute {e[2]}')
+		if k == 'index':
+			# x.shape[0]
+			if e[1][0] == 'attr' and e[1][2] == 'shape':
+				base, bt = self.ex(e[1][1])
+				return f'({base}.length : Int)', 'int'
+			base, bt = self.ex(e[1])
+			idx, it = self.ex(e[2], 'int')
+			if not bt.startswith('list_'):
+				raise Untranslatable('indexing a non-array')
+			el = bt[5:]
+			return f'({base}.getD ({self.to_int(idx, it)}).toNat {DEFAULT[el]})', el
+		if k == 'slice':
+			base, bt = self.ex(e[1])
+			lo, lt = self.ex(e[2], 'int')
+			hi, ht = self.ex(e[3], 'int')
+			return f'(({base}.drop ({self.to_int(lo, lt)}).toNat).take (({self.to_int(hi, ht)}) - ({self.to_int(lo, lt)})).toNat)', bt
+		if k == 'neg':
+			a, at = self.ex(e[1], 'int')
+			return f'(-{a})', at
+		if k == 'cast':
+			ty = ctype(e[1], self.typedefs)
+			a, at = self.ex(e[2])
+			return self.conv(a, at, ty), ty
+		if k == 'bin':
+			return self.binop(e, want)
+		if k == 'call':
+			fname = e[1][1] if e[1][0] == 'name' else None
+			if fname in self.known:
+				args = [self.ex(a)[0] for a in e[2] if not (a[0] == 'addr')]
+				return f'({fname} {" ".join(args)})', self.known[fname]
+			raise Untranslatable(f'call to {fname}')
+		raise Untranslatable(f'expression kind {k}')
+
+	def to_int(self, code, ty):
+		return self.conv(code, ty, 'int')
+
+	def conv(self, code, frm, to):
+		if frm == to:
+			return code
+		table = {('u64', 'int'): f'({code}.toNat : Int)', ('u8', 'int'): f'({code}.toNat : Int)', ('nat', 'int'): f'({code} : Int)',
+		         ('int', 'u64'): f'(UInt64.ofInt {code})', ('int', 'u8'): f'(UInt8.ofInt {code})', ('u8', 'u64'): f'(UInt64.ofNat {code}.toNat)',
+		         ('int', 'f32'): f'(F32.ofInt {code})', ('nat', 'f32'): f'(F32.ofInt ({code} : Int))', ('obj', 'u64'): f'(UInt64.ofInt {code})',
+		         ('u64', 'u8'): f'(UInt8.ofNat {code}.toNat)', ('int', 'nat'): f'({code}).toNat', ('obj', 'int'): code, ('int', 'obj'): code,
+		         ('bool', 'int'): f'(if {code} then (1 : Int) else 0)'}
+		if (frm, to) not in table:
+			raise Untranslatable(f'no conversion {frm} -> {to}')
+		return table[(frm, to)]
+
+	def binop(self, e, want):
+		op = e[1]
+		if op in ('and', 'or'):
+			a, _ = self.ex(e[2]); b, _ = self.ex(e[3])
+			return f'({a} {"&&" if op == "and" else "||"} {b})', 'bool'
+		a, at = self.ex(e[2], want if op not in ('<', '<=', '>', '>=', '==', '!=') else None)
+		b, bt = self.ex(e[3], at if at in ('u64', 'u8', 'nat', 'f32') else want)
+		if e[2][0] in ('num', 'chr') and bt in ('u64', 'u8', 'nat', 'f32'):
+			a, at = self.ex(e[2], bt)
+		# usual arithmetic conversions (subset): float > u64 > int ; u8/nat promote to int
+		if 'f32' in (at, bt):
+			ty = 'f32'
+		elif 'u64' in (at, bt):
+			ty = 'u64'
+		elif at == bt and at in ('u8', 'nat'):
+			ty = at if op in ('<', '<=', '>', '>=', '==', '!=', '&', '|') else 'int'
+		else:
+			ty = 'int'
+		a, b = self.conv(a, at, ty), self.conv(b, bt, ty)
+		if op in ('<', '<=', '>', '>=', '==', '!='):
+			lop = {'<': '<', '<=': '≤', '>': '>', '>=': '≥', '==': '=', '!=': '≠'}[op]
+			return f'(decide ({a} {lop} {b}))', 'bool'
+		if ty == 'f32':
+			f = {'/': 'F32.div', '-': 'F32.sub'}.get(op)
+			if not f:
+				raise Untranslatable(f'float operator {op}')
+			return f'({f} {a} {b})', 'f32'
+		lop = {'+': '+', '-': '-', '*': '*', '%': '%', '//': '/', '<<': '<<<', '>>': '>>>', '&': '&&&', '|': '|||', '^': '^^^'}.get(op)
+		if op == '/':
+			raise Untranslatable('integer true division')
+		if lop is None:
+			raise Untranslatable(f'operator {op}')
+		if ty == 'int' and op in ('<<', '>>', '&', '|', '^'):
+			raise Untranslatable(f'bit operator {op} on C int')
+		return f'({a} {lop} {b})', ty
+
+	# ---- statements ------------------------------------------------------------------------------
+	def block(self, body, ind):
+		"""Lean term of type  St -> Except Ret St"""
+		pad = '  ' * ind
+		lines = [f'{pad}fun s => do']
+		for st in body:
+			code = self.stmt(st, ind + 1)
+			if code is not None:
+				lines.append(f'{pad}  let s ← ({code}) s')
+		lines.append(f'{pad}  pure s')
+		return '\n'.join(lines)
+
+	def assign(self, target, code, ty):
+		if target[0] == 'name':
+			vt = self.vars[target[1]]
+			return f'fun s => pure {{ s with {target[1]} := {self.conv(code, ty, vt)} }}'
+		if target[0] == 'index':
+			base = target[1]
+			if base[0] != 'name':
+				raise Untranslatable('assignment to a non-variable element')
+			bt = self.vars[base[1]]
+			if base[1] in self.outparams and target[2] == ('num', 0):
+				return f'fun s => pure {{ s with {base[1]} := {self.conv(code, ty, bt)} }}'     # exc[0] = True
+			idx, it = self.ex(target[2], 'int')
+			el = bt[5:]
+			if base[1] not in self.written_lists:
+				self.written_lists.append(base[1])
+			return f'fun s => pure {{ s with {base[1]} := s.{base[1]}.set ({self.to_int(idx, it)}).toNat {self.conv(code, ty, el)} }}'
+		raise Untranslatable('assignment target')
+
+	def stmt(self, st, ind):
+		k = st[0]
+		pad = '  ' * ind
+		if k == 'decl':
+			m = re.match(r'([\w]+)\s+(.*)$', st[1])
+			outs = []
+			for part in _split_commas(m.group(2)):
+				if '=' in part:
+					name, rhs = [x.strip() for x in part.split('=', 1)]
+					code, ty = self.ex(parse_expr(rhs), self.vars[name])
+					outs.append(self.assign(('name', name), code, ty))
+			if not outs:
+				return None
+			return self._seq(outs)
+		if k == 'assign':
+			target, op, rhs = st[1], st[2], st[3]
+			if op != '=':
+				rhs = ('bin', op[:-1], target, rhs)
+			want = self.vars.get(target[1]) if target[0] == 'name' else None
+			code, ty = self.ex(rhs, want if want in ('u64', 'u8', 'f32') else None)
+			return self.assign(target, code, ty)
+		if k == 'ifchain':
+			chain = st[1]
+			code = None
+			for br in reversed(chain):
+				if br[0] == 'else':
+					code = f'({self.block(br[1], ind + 1)})'
+				else:
+					c, ct = self.ex(br[1])
+					if ct != 'bool':
+						raise Untranslatable('non-boolean condition')
+					els = code if code is not None else '(fun s => pure s)'
+					code = f'(fun s => if {c} then\n{pad}  ({self.block(br[2], ind + 2)}) s\n{pad} else {els} s)'
+			return code
+		if k == 'for':
+			var, kind, args, kw, body = st[1], st[2], st[3], st[4], st[5]
+			n, nt = self.ex(args[0], 'int')
+			b = self.block([('setvar', var)] + body, ind + 2)
+			return (f'fun s => forRangeFrom 0 ({self.to_int(n, nt)}).toNat (fun i_ s =>\n{pad}  ({b.replace("fun s => do", "fun s => do", 1)}) {{ s with {var} := (i_ : Int) }}) s')
+		if k == 'setvar':
+			return None
+		if k == 'while':
+			c, ct = self.ex(st[1])
+			self.whiles += 1
+			fuel = ' + '.join(f's.{n}.length' for n, t in self.vars.items() if t.startswith('list_')) or '0'
+			return (f'fun s => do\n{pad}  match ← whileFuelE ({fuel} + 1) (fun s => {c}) ({self.block(st[2], ind + 2)}) s with\n'
+			        f'{pad}  | some s => pure s\n{pad}  | none => throw fuelExhausted')
+		if k == 'return':
+			if st[1] is None:
+				return 'fun s => throw (retOf s)'
+			code, ty = self.ex(st[1], self.ret_type)
+			return f'fun s => throw (retWith ({self.conv(code, ty, self.ret_type)}) s)'
+		if k == 'raise':
+			return 'fun s => throw (raised s)'
+		if k == 'expr':
+			raise Untranslatable('expression statement')
+		raise Untranslatable(f'statement {k}')
+
+	def _seq(self, fs):
+		if len(fs) == 1:
+			return fs[0]
+		return 'fun s => do\n' + '\n'.join(f'      let s ← ({f}) s' for f in fs) + '\n      pure s'
+
+
+def _split_commas(s):
+	out, depth, cur = [], 0, ''
+	for c in s:
+		if c in '([':
+			depth += 1
+		if c in ')]':
+			depth -= 1
+		if c == ',' and depth == 0:
+			out.append(cur.strip()); cur = ''
+		else:
+			cur += c
+	if cur.strip():
+		out.append(cur.strip())
+	return out
+
+
+def emit_function(fn, typedefs, known):
+	em = Emitter(fn, typedefs, known)
+	name = fn['name']
+	ret = fn['ret']
+	em.ret_type = ctype(ret, typedefs) if ret and ret != 'void' else None
+	fields = list(em.vars.items())
+	body = em.block(fn['body'], 2)
+	outs = [n for n in em.outparams] + [n for n in em.written_lists]
+	ret_fields = ([('ret', em.ret_type)] if em.ret_type else []) + [(n, em.vars[n]) for n in outs]
+	L = []
+	L.append(f'/-- state of `{name}`: parameters and locals -/')
+	L.append(f'structure {name}.St where')
+	for n, t in fields:
+		L.append(f'  {n} : {LEANT[t]}')
+	L.append('')
+	L.append(f'structure {name}.Ret where')
+	for n, t in ret_fields:
+		L.append(f'  {n} : {LEANT[t]}')
+	L.append('  fuelOut : Bool := false')
+	L.append('  deriving DecidableEq, Repr')
+	L.append('')
+	L.append(f'namespace {name}')
+	retinit = ', '.join([f'ret := {DEFAULT[em.ret_type]}'] if em.ret_type else [])
+	outsinit = ', '.join(f'{n} := s.{n}' for n in outs)
+	L.append(f'def retOf (s : St) : Ret := {{ {", ".join(x for x in [retinit, outsinit] if x)} }}')
+	if em.ret_type:
+		L.append(f'def retWith (r : {LEANT[em.ret_type]}) (s : St) : Ret := {{ retOf s with ret := r }}')
+	L.append(f'def fuelExhausted : Ret := {{ {", ".join([f"ret := {DEFAULT[em.ret_type]}"] if em.ret_type else [])}{", " if em.ret_type and outs else ""}{", ".join(f"{n} := {DEFAULT[em.vars[n]]}" for n in outs)}{", " if (em.ret_type or outs) else ""}fuelOut := true }}')
+	L.append(f'def raised (s : St) : Ret := retOf s')
+	L.append(f'def run : St → Except Ret St :=\n{body}')
+	L.append(f'end {name}')
+	params = ' '.join(f'({n} : {LEANT[ctype(t, typedefs)]})' for n, t in fn['params'] if not t.endswith('*'))
+	init = ', '.join(f'{n} := {n}' if (n, t) in [(a, b) for a, b in fn['params'] if not b.endswith('*')] else f'{n} := {DEFAULT[em.vars[n]]}' for n, t in
+	                 [(n, dict(fn['params']).get(n, '')) for n, _ in fields])
+	L.append(f'def {name} {params} : {name}.Ret :=')
+	L.append(f'  match {name}.run {{ {init} }} with')
+	L.append(f'  | .error r => r')
+	L.append(f'  | .ok s => {name}.retOf s')
+	info = {'name': name, 'whiles': em.whiles, 'written': em.written_lists, 'outparams': em.outparams, 'ret': em.ret_type}
+	return '\n'.join(L), info
+
+
+def prange_facts(fn):
+	"""static facts about a prange loop: written locations, variables assigned inside, arrays read"""
+	facts = []
+	for st in fn['body']:
+		if st[0] == 'for' and st[2] == 'prange':
+			var = st[1]
+			writes, assigned, reads = [], [], set()
+
+			def walk_e(e):
+				if isinstance(e, tuple):
+					if e[0] in ('index', 'slice') and e[1][0] == 'name':
+						reads.add(e[1][1])
+					for x in e[1:]:
+						if isinstance(x, (tuple, list)):
+							walk_e(x)
+				elif isinstance(e, list):
+					for x in e:
+						walk_e(x)
+			for s in st[5]:
+				if s[0] == 'assign':
+					if s[1][0] == 'index':
+						writes.append((s[1][1][1], s[1][2]))
+					else:
+						assigned.append(s[1][1])
+					walk_e(s[3])
+				else:
+					facts.append({'unsupported': s[0]})
+			facts.append({'var': var, 'writes': [(a, i == ('name', var)) for a, i in writes], 'private': assigned, 'reads': sorted(reads - {a for a, _ in writes}),
+			              'kw': {k: v for k, v in st[4].items()}})
+	return facts
+
+
+HEADER = '''/-
+GENERATED by harness/pyx2lean.py from {src} (sha1 {sha}) — do not edit.
+Regenerated at the start of every check; `GambitV.Tie.*` proves these definitions equal to the hand-written models.
+-/
+import GambitV.Model.Loops
+import GambitV.Model.F32
+namespace GambitV.Gen
+open GambitV
+'''
+
+
+def translate_file(path: Path, typedefs, only, known):
+	text = path.read_text()
+	funcs = parse_functions(text)
+	out, infos, unt = [], [], []
+	for fn in funcs:
+		if fn['name'] not in only:
+			continue
+		try:
+			code, info = emit_function(fn, typedefs, known)
+			out.append(code)
+			infos.append(info)
+			if fn['ret'] and fn['ret'] != 'void':
+				known[fn['name']] = ctype(fn['ret'], typedefs)
+		except Untranslatable as e:
+			unt.append(f'{path.name}:{fn["name"]}: {e}')
+			out.append(f'-- UNTRANSLATABLE {fn["name"]}: {e}')
+	return funcs, '\n\n'.join(out), infos, unt
+
+
+def read_typedefs(pxd: Path):
+	td = {}
+	for m in re.finditer(r'^ctypedef\s+(\w+)\s+(\w+)\s*$', pxd.read_text(), flags=re.M):
+		td[m.group(2)] = m.group(1)
+	fused = {}
+	for m in re.finditer(r'^ctypedef fused (\w+):\n((?:\t\w+\n)+)', pxd.read_text(), flags=re.M):
+		fused[m.group(1)] = m.group(2).split()
+	return td, fused
+
+
+def regenerate(repo: Path, outdir: Path) -> dict:
+	cy = Path(repo) / 'src' / 'gambit' / '_cython'
+	outdir.mkdir(parents=True, exist_ok=True)
+	report = {'functions': [], 'untranslatable': [], 'files': {}}
+	try:
+		typedefs, fused = read_typedefs(cy / 'types.pxd')
+	except Exception as e:
+		report['untranslatable'].append(f'types.pxd: {e}')
+		return report
+	report['typedefs'] = typedefs
+	report['fused'] = fused
+	for f, exp in fused.items():
+		if exp != ['uint16_t', 'uint32_t', 'uint64_t']:
+			report['untranslatable'].append(f'types.pxd: fused type {f} = {exp}')
+	if typedefs.get('SCORE_T') != 'float':
+		report['untranslatable'].append(f'types.pxd: SCORE_T = {typedefs.get("SCORE_T")} (expected float)')
+	if typedefs.get('BOUNDS_T') != 'intptr_t':
+		report['untranslatable'].append(f'types.pxd: BOUNDS_T = {typedefs.get("BOUNDS_T")}')
+	jobs = [('kmers.pyx', 'Kmers', ['c_kmer_to_index', 'c_kmer_to_index_rc', 'c_index_to_kmer', 'c_revcomp']),
+	        ('metric.pyx', 'Metric', ['c_jaccarddist'])]
+	for fname, mod, only in jobs:
+		src = cy / fname
+		try:
+			known = {}
+			funcs, code, infos, unt = translate_file(src, typedefs, only, known)
+		except Exception as e:  # parser failure: nothing is skipped silently
+			report['untranslatable'].append(f'{fname}: {type(e).__name__}: {e}')
+			continue
+		report['functions'] += [i['name'] for i in infos]
+		report['untranslatable'] += unt
+		missing = [n for n in only if n not in [i['name'] for i in infos] and not any(n in u for u in unt)]
+		for n in missing:
+			report['untranslatable'].append(f'{fname}: function {n} not found')
+		extra = ''
+		if fname == 'metric.pyx':
+			# the def-level wrappers and the prange loop: structural facts checked by the Tie module
+			pf = [f for fn in funcs if fn['name'] == '_jaccarddist_parallel' for f in prange_facts(fn)]
+			report['prange'] = pf
+			jac = [fn for fn in funcs if fn['name'] == 'jaccard']
+			jd = [fn for fn in funcs if fn['name'] == 'jaccarddist']
+			facts = []
+			ok_pr = (len(pf) == 1 and 'var' in pf[0] and pf[0]['writes'] == [('out', True)] and set(pf[0]['private']) == {'begin', 'end'}
+			         and set(pf[0]['reads']) <= {'ref_bounds', 'ref_coords', 'query'})
+			facts.append(f'def prangeWritesOnlyOwnCell : Bool := {"true" if ok_pr else "false"}')
+			jac_ok = bool(jac) and jac[0]['body'] == [('return', ('bin', '-', ('num', 1), ('call', ('name', 'c_jaccarddist'), [('name', 'coords1'), ('name', 'coords2')], {})))]
+			jd_ok = bool(jd) and jd[0]['body'] == [('return', ('call', ('name', 'c_jaccarddist'), [('name', 'coords1'), ('name', 'coords2')], {}))]
+			facts.append(f'def jaccardIsOneMinusDist : Bool := {"true" if jac_ok else "false"}')
+			facts.append(f'def jaccarddistIsKernel : Bool := {"true" if jd_ok else "false"}')
+			par = [fn for fn in funcs if fn['name'] == '_jaccarddist_parallel']
+			body_ok = False
+			if par:
+				loops = [s for s in par[0]['body'] if s[0] == 'for']
+				if len(loops) == 1:
+					b = loops[0][5]
+					want = [('assign', ('name', 'begin'), '=', ('index', ('name', 'ref_bounds'), ('name', 'i'))),
+					        ('assign', ('name', 'end'), '=', ('index', ('name', 'ref_bounds'), ('bin', '+', ('name', 'i'), ('num', 1)))),
+					        ('assign', ('index', ('name', 'out'), ('name', 'i')), '=', ('call', ('name', 'c_jaccarddist'), [('name', 'query'), ('slice', ('name', 'ref_coords'), ('name', 'begin'), ('name', 'end'))], {}))]
+					body_ok = b == want and loops[0][3] == [('name', 'N')]
+			facts.append(f'def prangeBodyIsSliceDist : Bool := {"true" if body_ok else "false"}')
+			extra = '\n\n/-! structural facts read off the parsed `def` wrappers and the `prange` loop -/\n' + '\n'.join(facts) + '\n'
+		sha = hashlib.sha1(src.read_bytes()).hexdigest()[:12]
+		text = HEADER.format(src=f'src/gambit/_cython/{fname}', sha=sha) + '\n' + code + extra + '\nend GambitV.Gen\n'
+		target = outdir / f'{mod}.lean'
+		if not target.exists() or target.read_text() != text:
+			target.write_text(text)
+		report['files'][fname] = sha
+	return report
+
+
+if __name__ == '__main__':
+	import json, sys
+	r = regenerate(Path(sys.argv[1] if len(sys.argv) > 1 else '/repo'), Path(__file__).resolve().parent.parent / 'lean' / 'GambitV' / 'Gen')
+	print(json.dumps(r, indent=1, default=str))
